@@ -49,9 +49,9 @@ struct verif_stats {
 
 static const char *kind_names[] = {"open",   "write",  "read",   "mkdir",  "unlink", "rmdir",
                                    "rename", "chmod",  "symlink", "link",  "copy_file_range",
-                                   "sendfile", "readdir", "ftruncate", "fchmod", "pwrite", 0};
+                                   "sendfile", "readdir", "ftruncate", "fchmod", "pwrite", "opendir", 0};
 enum { K_OPEN, K_WRITE, K_READ, K_MKDIR, K_UNLINK, K_RMDIR, K_RENAME, K_CHMOD, K_SYMLINK, K_LINK,
-       K_CFR, K_SENDFILE, K_READDIR, K_FTRUNC, K_FCHMOD, K_PWRITE };
+       K_CFR, K_SENDFILE, K_READDIR, K_FTRUNC, K_FCHMOD, K_PWRITE, K_OPENDIR };
 
 static int g_active = 0;
 static char g_prefix[PATHLEN];
@@ -260,7 +260,7 @@ void verif_shim_set_random(uint64_t seed, int on) {
     g_random_state = seed;
 }
 
-const char *verif_shim_kind_name(int k) { return (k >= 0 && k < 16) ? kind_names[k] : 0; }
+const char *verif_shim_kind_name(int k) { return (k >= 0 && k < 17) ? kind_names[k] : 0; }
 
 int verif_shim_present(void) { return 1; }
 
@@ -615,8 +615,9 @@ static void register_dir(DIR *d, const char *abs) {
 
 DIR *opendir(const char *path) {
     REAL(opendir);
-    DIR *d = real_opendir(path);
     char abs[PATHLEN];
+    if (path_matches(AT_FDCWD, path, abs) && decide(K_OPENDIR, "opendir", abs)) return 0;
+    DIR *d = real_opendir(path);
     if (d && path_matches(AT_FDCWD, path, abs)) {
         int e = errno;
         register_dir(d, abs);
@@ -629,6 +630,7 @@ DIR *opendir(const char *path) {
 
 DIR *fdopendir(int fd) {
     REAL(fdopendir);
+    if (fd_matches(fd) && decide(K_OPENDIR, "opendir", fd_path[fd])) return 0;
     DIR *d = real_fdopendir(fd);
     if (d && fd_matches(fd)) {
         int e = errno;
